@@ -3,10 +3,11 @@
 package main
 
 import (
-	bolt "go.etcd.io/bbolt"
 	"context"
 	"fmt"
+	bolt "go.etcd.io/bbolt"
 	"os"
+	"sort"
 	"strconv"
 	"strings"
 	"sync"
@@ -32,17 +33,17 @@ import (
 // scripted RPM input. Model counterpart: lean/Fan2go/Model/Analysis.lean via lean/Driver/StartupStream.lean.
 
 type suFan struct {
-	id      string
-	kind    string
-	dir     string
-	dev     *verifhook.Device
-	cfg     configuration.FanConfig
-	spinAt  int // device model: rpm = 0 below this pwm, else 10*pwm
+	id     string
+	kind   string
+	dir    string
+	dev    *verifhook.Device
+	cfg    configuration.FanConfig
+	spinAt int // device model: rpm = 0 below this pwm, else 10*pwm
 	// inertia: after a PWM write the RPM register keeps moving for `drift` more polls (virtual sleeps) before it rests at
 	// rpmOf(pwm): a fan that takes long to settle
 	drift     int64
 	driftLeft int64
-	evalSeq int64
+	evalSeq   int64
 	// panicAttachUs > 0: the fan's driver panics in AttachFanRpmCurveData that many microseconds (real time) after the
 	// call began (a fault on the start-up path of ONE controller, outside any analysis of its own)
 	panicAttachUs int
@@ -271,6 +272,19 @@ var suFlakyMu sync.Mutex
 // the fan object of the most recent suRunOne (the one that went through the real Run)
 var suLastFan fans.Fan
 
+// the configuration lists exactly the declared fans (in id order)
+func suSyncConfig() {
+	ids := make([]string, 0, len(suFans))
+	for id := range suFans {
+		ids = append(ids, id)
+	}
+	sort.Strings(ids)
+	configuration.CurrentConfig.Fans = nil
+	for _, id := range ids {
+		configuration.CurrentConfig.Fans = append(configuration.CurrentConfig.Fans, suFans[id].cfg)
+	}
+}
+
 func suRunOne(f *suFan, ctx context.Context, cancelAfterEval bool) (res string, from int64) {
 	from = atomic.LoadInt64(&suSeq)
 	fan := f.newFan()
@@ -355,6 +369,7 @@ func init() {
 			cleanups = append(cleanups, func() { os.RemoveAll(d) })
 			suDb = d + "/fan2go.db"
 			suFans = map[string]*suFan{}
+			configuration.CurrentConfig.Fans = nil
 			suEvents = nil
 			configuration.CurrentConfig.RunFanInitializationInParallel = a.bool("parallel", true)
 			configuration.CurrentConfig.RpmPollingRate = 2 * time.Millisecond
@@ -381,6 +396,13 @@ func init() {
 		case "su.fan":
 			f := suNewFan(a)
 			suFans[f.id] = f
+			suSyncConfig()
+			return "ok"
+		case "su.drop":
+			// the fan's entry is taken out of the configuration (for a start or two); what is stored under its id stays
+			// stored until the USER discards it
+			delete(suFans, a.str("fan", "f1"))
+			suSyncConfig()
 			return "ok"
 		case "su.start":
 			f := suFans[a.str("fan", "f1")]
